@@ -661,6 +661,16 @@ func (c *FnCtx) evalCall(x *ECall, env *Env) (TV, error) {
 				return TV{intLit(at.Len()), intT}, nil
 			}
 			return TV{}, fmt.Errorf("len of %s", a.typ)
+		case "iface":
+			// iface(x): x converted to an interface value (what a call passing x as an interface argument sees)
+			args, err := evalArgs()
+			if err != nil {
+				return TV{}, err
+			}
+			if len(args) != 1 || args[0].typ == nil {
+				return TV{}, fmt.Errorf("iface takes one typed argument")
+			}
+			return TV{c.box(args[0].t, args[0].typ), types.NewInterfaceType(nil, nil)}, nil
 		case "has":
 			if oc, ok := x.Args[0].(*ECall); ok {
 				if id, ok := oc.Fun.(*EIdent); ok && id.Name == "old" {
